@@ -358,6 +358,8 @@ impl<'p> CoroutinePool<'p> {
             return Ok(Err("The coroutine pool has stopped"));
         }
         #[cfg(feature = "verif")]
+        crate::verif::point("wait:block");
+        #[cfg(feature = "verif")]
         let wait_time = if crate::verif::is_virtual_driver() {
             if *arc.0.lock().expect("lock failed") {
                 _ = crate::verif::clock_advance(wait_time);
